@@ -316,6 +316,21 @@ def parseEqEffect (t : String) : Option Equiv.Effect :=
   | "tombstone" => some (.tombstone (nat0 (g "v")))
   | _ => none
 
+/-- header spec "chain/height/round/state/data/flags" (flags in the order of `vals` on the op line)
+    and the validator-set order printed by the harness -/
+def parseHdr (spec : String) (vals : List (Nat × Nat)) (order : List Nat) : Equiv.Hdr :=
+  match spec.splitOn "/" with
+  | [ch, h, r, st, dt, fl] =>
+    let flags := fl.toList
+    let flagOf := fun (k : Nat) => match vals.findIdx? (·.1 == k) with | some i => flags.getD i 'a' | none => 'a'
+    { chain := ch, height := nat0 h, round := nat0 r, state := nat0 st, data := nat0 dt,
+      vals := order.filterMap fun k => (vals.find? (·.1 == k)),
+      sigs := order.map fun k =>
+        let c := flagOf k
+        { key := k, flag := if c == 'a' then .absent else if c == 'n' then .nil else .commit,
+          sigOK := c == 'c' || c == 'n' } }
+  | _ => default
+
 structure ProvDrv where
   impl : ProvImpl := {}
   engine : List ValSet.Val := []      -- the consensus engine's view: all returned updates folded
@@ -547,6 +562,43 @@ def stepProvCore (d : ProvDrv) (a : Acc) (s : Step) : ProvDrv × Acc :=
     let a := if ok then { (a.tag "dvote-accepted") with nontrivial := a.nontrivial + 1 }
              else if Spec.C07.validFor x e then a.tag "dvote-valid-but-unpunishable"
              else if !Equiv.basicOK e then a.tag "dvote-rejected-basic" else a.tag "dvote-rejected"
+    ({ impl := after }, a)
+  | "misb" =>
+    let c := s.op.get "c"
+    let o := s.ob "r"
+    let x := st.get c
+    let vals := s.op.pairs "vals"
+    let tv := if s.op.get "tvals" == "same" then vals else s.op.pairs "tvals"
+    let m : Equiv.Misb :=
+      { client := if s.op.get "client" == "own" then x.client.getD "07-tendermint-9999" else s.op.get "client",
+        h1 := parseHdr (s.op.get "h1") vals (parseNatList (o.get "order1")),
+        h2 := parseHdr (s.op.get "h2") vals (parseNatList (o.get "order2")),
+        th := s.op.nat "th",
+        tvals := (parseNatList (o.get "torder")).filterMap fun k => tv.find? (·.1 == k) }
+    let env : Equiv.ClientEnv :=
+      { clientChain := o.get "cchain", trustedMatches := s.op.get "trusted" == "1",
+        expired := decide (s.op.nat "age" ≥ 1209600000000000) }
+    let unb := parseUnb (before.g.get "unb")
+    let mres := Equiv.handleMisb st unb env c m
+    let ok := res == "ok"
+    let a := a.cmp s.lineNo "misb.res" (if mres.isSome then "ok" else "err") res
+    let a := a.cmp s.lineNo "misb.stage" (if Equiv.misbBasicOK m then "handler" else "basic") (o.get "stage")
+    let effI := splitNE (o.get "effects") "|"
+    let a := a.cmp s.lineNo "misb.effects" ("|".intercalate ((mres.getD []).map renderEqEffect)) ("|".intercalate effI)
+    let effs := effI.filterMap parseEqEffect
+    let stkA := parseStk (after.g.get "stk")
+    let a := a.spec s.lineNo "C07.misb-accepted-only-if-valid" (Spec.C07.misbAcceptedOnlyIfValid x env m ok) s!"{repr m}"
+    let a := a.spec s.lineNo "C07.misb-only-double-signers" (Spec.C07.misbOnlyDoubleSigners x m effs) s!"{o.get "effects"}"
+    let a := a.spec s.lineNo "C07.misb-per-settings" (Spec.C07.misbPerSettings x ok effs) s!"{o.get "effects"}"
+    let a := a.spec s.lineNo "C07.misb-frame" (Spec.C07.misbFrame ok effs st.stk stkA) s!"before={before.g.get "stk"} after={after.g.get "stk"}"
+    let a := a.spec s.lineNo "C07.tombstoned-never-again" (Spec.C07.tombstonedNeverAgain st.stk effs)
+    let a := a.spec s.lineNo "C07.rejected-changes-nothing" (ok || (after.cs.all fun e2 => e2.2 == (before.cfields e2.1)))
+    let a := if ok then { (a.tag "misb-accepted") with nontrivial := a.nontrivial + 1 }
+             else if !Equiv.misbBasicOK m then a.tag "misb-rejected-basic"
+             else if !Equiv.checkMisb x env m then a.tag "misb-rejected-check"
+             else if Equiv.byzantine m == some [] then a.tag "misb-nobody-identifiable"
+             else if (Equiv.byzantine m).isNone then a.tag "misb-bad-common-signature"
+             else a.tag "misb-nobody-punishable"
     ({ impl := after }, a)
   | "reward" =>
     let c := s.op.get "c"
